@@ -73,7 +73,7 @@ type docGen struct {
 	noTitle        bool   // no <title> element (C09: the word-count clause needs pages without title)
 }
 
-var litMarkup = []string{"<code>style</code>", "<em>script</em>", "<b>head</b>", "<i>noscript</i>", "<span>link</span>", "<u>title</u>", "<code>body</code>"}
+var litMarkup = []string{"<code>style</code>", "<em>script</em>", "<b>head</b>", "<i>noscript</i>", "<u>title</u>", "<code>body</code>"}
 
 func newDocGen(seed int64, id int) *docGen {
 	return &docGen{
